@@ -95,10 +95,21 @@ SubInit(p) ==
 AddTap(m) == IF m.grp = <<>> \/ m.sepNext
              THEN [m EXCEPT !.grp = Append(@, 1), !.sepNext = FALSE, !.taps = @ + 1]
              ELSE [m EXCEPT !.grp[Len(m.grp)] = @ + 1, !.taps = @ + 1]
+RECURSIVE DropTo(_, _)
+DropTo(grp, j) == IF grp = <<>> THEN <<>> ELSE IF grp[1] >= j THEN grp ELSE DropTo(Tail(grp), j)
+RECURSIVE GSum(_)
+GSum(grp) == IF grp = <<>> THEN 0 ELSE grp[1] + GSum(Tail(grp))
 \* consume taps of the first group for `d outs[j]`: <<ok, m'>>
-Consume(m, j) ==
-  LET p == m.p IN
-  IF m.grp = <<>> THEN <<FALSE, m>>
+\* A list with silent entries (lazy form): a dance that ended with a silent action leaves no trace, and kanata need not
+\* become idle before the next dance is resolved; so no claim is made about which earlier groups are still unconsumed:
+\* the leading groups too small for action j are taken as resolved silently and the first group with >= j taps accounts
+\* for it (a dance counts the taps of one group only, and dances are resolved in order).  Taps that stay over-counted
+\* only make the rule more permissive; they are written off at the next idle point.
+Consume(m0, j) ==
+  LET p == m0.p
+      g == IF ~p.eager /\ HasSilent(p) THEN DropTo(m0.grp, j) ELSE m0.grp
+      m == IF g = m0.grp THEN m0 ELSE [m0 EXCEPT !.grp = g, !.taps = GSum(g)] IN
+  IF m.grp = <<>> THEN <<FALSE, m0>>
   ELSE IF p.eager
   THEN <<TRUE, [m EXCEPT !.grp = IF m.grp[1] = 1 THEN Tail(@) ELSE [@ EXCEPT ![1] = @ - 1], !.taps = @ - 1]>>
   ELSE IF m.grp[1] < j THEN <<FALSE, m>>
